@@ -1,4 +1,4 @@
-Require Import V.Lib V.GoPath V.GoPathProofs V.C03_Model.
+Require Import V.Lib V.GoPath V.GoPathProofs V.Gen_C09 V.C03_Model.
 Open Scope N_scope.
 
 (* ---------- the matcher covers the resolver ---------- *)
@@ -140,4 +140,731 @@ Theorem internal_blocks_covers_resolver cs p paths prefix :
 Proof.
   intros Hr Hne Hin Hm. apply existsb_exists. exists prefix. split; [exact Hin|].
   apply matcher_covers_resolver; assumption.
+Qed.
+
+(* ====================================================================================
+   multiple rules: what the loop computes, for every rule list
+   ==================================================================================== *)
+Theorem rules_fold_spec cs path rules :
+  fold_left (rule_step cs path) rules (false, false) =
+  (existsb (protects cs path) rules, existsb (fun ru => protects cs path ru && r_creds_ok ru) rules).
+Proof. rewrite fold_rules_spec. reflexivity. Qed.
+
+Lemma existsb_false_forall {A} (f : A -> bool) l :
+  existsb f l = false <-> (forall x, In x l -> f x = false).
+Proof.
+  split.
+  - intros H x Hin. destruct (f x) eqn:E; [|reflexivity].
+    assert (existsb f l = true) by (apply existsb_exists; eauto). congruence.
+  - intros H. apply not_true_is_false. intros E. apply existsb_exists in E as (x & Hin & Hx).
+    rewrite (H x Hin) in Hx. discriminate.
+Qed.
+
+(* ANY-rule semantics: let through iff OPTIONS, or no rule protects the path, or the presented
+   credentials satisfy at least one rule that protects it *)
+Theorem decide_pass_iff cs opt path rules :
+  basicauth_decide cs opt path rules = Pass <->
+  opt = true \/ (forall ru, In ru rules -> protects cs path ru = false) \/
+  (exists ru, In ru rules /\ protects cs path ru = true /\ r_creds_ok ru = true).
+Proof.
+  split.
+  - intros H. destruct opt; [left; reflexivity|right].
+    destruct (existsb (protects cs path) rules) eqn:Ep.
+    + right. destruct (existsb (fun ru => protects cs path ru && r_creds_ok ru) rules) eqn:Es.
+      * apply existsb_exists in Es as (ru & Hin & Hru). apply andb_true_iff in Hru as [H1 H2]. eauto.
+      * assert (D : basicauth_decide cs false path rules = Deny401) by (apply basicauth_decide_spec; auto).
+        congruence.
+    + left. apply existsb_false_forall. exact Ep.
+  - intros [-> | [Hnone | (ru & Hin & Hp & Hok)]].
+    + reflexivity.
+    + destruct (basicauth_decide cs opt path rules) eqn:E; [reflexivity|].
+      apply basicauth_decide_spec in E as (_ & Hp & _).
+      apply existsb_exists in Hp as (ru & Hin & Hp). rewrite (Hnone ru Hin) in Hp. discriminate.
+    + eapply basicauth_pass_with_credentials; eauto.
+Qed.
+
+(* the EVERY-rule reading is not what the code does *)
+Theorem every_rule_refuted :
+  exists cs path rules ru,
+    In ru rules /\ protects cs path ru = true /\ r_creds_ok ru = false /\
+    basicauth_decide cs false path rules = Pass.
+Proof.
+  exists false, (bs "/secret/x/f"%string),
+    [ {| r_resources := [bs "/secret"%string]; r_exclude := []; r_creds_ok := true |};
+      {| r_resources := [bs "/secret/x"%string]; r_exclude := []; r_creds_ok := false |} ],
+    {| r_resources := [bs "/secret/x"%string]; r_exclude := []; r_creds_ok := false |}.
+  split; [right; left; reflexivity|]. repeat split; vm_compute; reflexivity.
+Qed.
+
+(* ... it coincides with it when every protecting rule is satisfied (and then the request passes),
+   in particular when exactly the satisfied rules protect the path *)
+Theorem every_rule_partial cs opt path rules :
+  (forall ru, In ru rules -> protects cs path ru = true -> r_creds_ok ru = true) ->
+  basicauth_decide cs opt path rules = Pass.
+Proof.
+  intros H. apply decide_pass_iff. destruct opt; [left; reflexivity|right].
+  destruct (existsb (protects cs path) rules) eqn:Ep.
+  - right. apply existsb_exists in Ep as (ru & Hin & Hp). exists ru. auto.
+  - left. apply existsb_false_forall. exact Ep.
+Qed.
+
+(* a rule that does not protect the path — no resource matches, or one of ITS exclusions does —
+   is inert wherever it stands: the exclusion of one rule does not leak to the rules after it *)
+Lemma existsb_app_mid {A} (f : A -> bool) l1 x l2 :
+  f x = false -> existsb f (l1 ++ x :: l2) = existsb f (l1 ++ l2).
+Proof. intros H. rewrite !existsb_app. cbn [existsb]. rewrite H. reflexivity. Qed.
+
+Theorem unprotecting_rule_inert cs opt path l1 ru l2 :
+  protects cs path ru = false ->
+  basicauth_decide cs opt path (l1 ++ ru :: l2) = basicauth_decide cs opt path (l1 ++ l2).
+Proof.
+  intros H. unfold basicauth_decide. destruct opt; [reflexivity|].
+  rewrite !rules_fold_spec. rewrite !existsb_app_mid; [reflexivity| rewrite H; reflexivity | exact H].
+Qed.
+
+Theorem excluded_rule_inert cs opt path l1 ru l2 :
+  existsb (path_matches cs path) (r_exclude ru) = true ->
+  basicauth_decide cs opt path (l1 ++ ru :: l2) = basicauth_decide cs opt path (l1 ++ l2).
+Proof.
+  intros H. apply unprotecting_rule_inert. unfold protects. rewrite H. apply andb_false_r.
+Qed.
+
+Require Import Coq.Sorting.Permutation.
+Lemma existsb_perm {A} (f : A -> bool) l l' : Permutation l l' -> existsb f l = existsb f l'.
+Proof.
+  induction 1; cbn [existsb]; try congruence.
+  destruct (f x), (f y); reflexivity.
+Qed.
+
+(* the decision does not depend on the order in which the rules are written *)
+Theorem decide_permutation cs opt path rules rules' :
+  Permutation rules rules' -> basicauth_decide cs opt path rules = basicauth_decide cs opt path rules'.
+Proof.
+  intros HP. unfold basicauth_decide. destruct opt; [reflexivity|].
+  rewrite !rules_fold_spec. rewrite (existsb_perm _ _ _ HP).
+  rewrite (existsb_perm (fun ru => protects cs path ru && r_creds_ok ru) _ _ HP). reflexivity.
+Qed.
+
+(* ====================================================================================
+   internal: the X-Accel-Redirect loop
+   ==================================================================================== *)
+Lemma accel_loop_ext inner1 inner2 :
+  (forall q w, inner1 q w = inner2 q w) ->
+  forall fuel q cur, accel_loop fuel inner1 q cur = accel_loop fuel inner2 q cur.
+Proof.
+  intros HE. induction fuel as [|k IH]; intros q cur; cbn [accel_loop].
+  - reflexivity.
+  - destruct (o_hdr cur); [reflexivity|]. rewrite HE. apply IH.
+Qed.
+
+Lemma internal_serve_ext cs ps inner1 inner2 q w :
+  (forall q w, inner1 q w = inner2 q w) ->
+  internal_serve cs ps inner1 q w = internal_serve cs ps inner2 q w.
+Proof.
+  intros HE. unfold internal_serve. destruct (internal_blocks cs (q_path q) ps); [reflexivity|].
+  rewrite HE. apply accel_loop_ext. exact HE.
+Qed.
+
+(* an internal location is answered 404 and nothing is run, whatever the client sends and
+   whatever the response header map already holds *)
+Theorem internal_blocked_404 cs ps inner q w :
+  internal_blocks cs (q_path q) ps = true ->
+  internal_serve cs ps inner q w = deny 404 w.
+Proof. intros H. unfold internal_serve. rewrite H. reflexivity. Qed.
+
+(* the client's own X-Accel-Redirect REQUEST header is never consulted: if the inner handlers
+   ignore it, so does the whole middleware *)
+Lemma accel_loop_xaccel inner x :
+  (forall q w, inner (with_xaccel q x) w = inner q w) ->
+  forall fuel q cur, accel_loop fuel inner (with_xaccel q x) cur = accel_loop fuel inner q cur.
+Proof.
+  intros HI. induction fuel as [|k IH]; intros q cur; cbn [accel_loop]; [reflexivity|].
+  destruct (o_hdr cur) as [|t ts]; [reflexivity|].
+  change (set_path (with_xaccel q x) (t :: ts)) with (with_xaccel (set_path q (t :: ts)) x).
+  rewrite HI. apply IH.
+Qed.
+
+Theorem internal_request_header_inert cs ps inner q w x :
+  (forall q w, inner (with_xaccel q x) w = inner q w) ->
+  internal_serve cs ps inner (with_xaccel q x) w = internal_serve cs ps inner q w.
+Proof.
+  intros HI. unfold internal_serve. cbn [with_xaccel q_path].
+  destruct (internal_blocks cs (q_path q) ps); [reflexivity|].
+  rewrite HI. apply accel_loop_xaccel. exact HI.
+Qed.
+
+(* no inner handler sets the response header (and none was set on entry): one call, no redirect,
+   internal locations stay 404 — for every value of the client's request header *)
+Theorem internal_no_response_header cs ps h q x :
+  (forall q w, h q w = w) ->
+  internal_serve cs ps (touch h) (with_xaccel q x) [] =
+  if internal_blocks cs (q_path q) ps then deny 404 [] else touch h (with_xaccel q x) [].
+Proof.
+  intros Hh. unfold internal_serve. cbn [with_xaccel q_path].
+  destruct (internal_blocks cs (q_path q) ps); [reflexivity|].
+  cbn [accel_loop touch o_hdr]. rewrite Hh. reflexivity.
+Qed.
+
+(* every path the inner chain is run with after the first one was named by a response header
+   an inner handler produced (or found and kept) *)
+Definition named_by (h : hdrfun) (t : bytes) : Prop := t <> [] /\ exists q w, h q w = t.
+
+Lemma accel_loop_touched h : forall fuel q cur,
+  (o_hdr cur <> [] -> named_by h (o_hdr cur)) ->
+  forall t, In t (o_touched (accel_loop fuel (touch h) q cur)) ->
+            In t (o_touched cur) \/ named_by h t.
+Proof.
+  induction fuel as [|k IH]; intros q cur Hc t; cbn [accel_loop].
+  - destruct (o_hdr cur); cbn [o_touched]; auto.
+  - destruct (o_hdr cur) as [|c ts] eqn:Eh; [auto|].
+    assert (Hn : named_by h (c :: ts)) by (apply Hc; discriminate).
+    intros Hin. apply IH in Hin.
+    + destruct Hin as [Hin | Hin]; [|right; exact Hin].
+      cbn [o_touched touch] in Hin. apply in_app_or in Hin as [Hin | [<- | []]]; [left; exact Hin|].
+      right. exact Hn.
+    + cbn [o_hdr touch]. intros Hne. split; [exact Hne|]. eauto.
+Qed.
+
+Theorem internal_touched_spec cs ps h q w :
+  forall t, In t (o_touched (internal_serve cs ps (touch h) q w)) ->
+    internal_blocks cs (q_path q) ps = false /\ (t = q_path q \/ named_by h t).
+Proof.
+  intros t. unfold internal_serve.
+  destruct (internal_blocks cs (q_path q) ps); [intros []|].
+  intros Hin. split; [reflexivity|].
+  apply accel_loop_touched in Hin.
+  - destruct Hin as [[<- | []] | Hn]; auto.
+  - cbn [touch o_hdr]. intros Hne. split; [exact Hne|]. eauto.
+Qed.
+
+(* ... and a response header does unlock: the inner handler names t, the chain is run again with t,
+   without any test against the internal locations *)
+Theorem internal_unlock_by_response_header cs ps h q w t :
+  internal_blocks cs (q_path q) ps = false -> t <> [] ->
+  h q w = t -> h (set_path q t) [] = [] ->
+  internal_serve cs ps (touch h) q w = {| o_status := 200; o_touched := [q_path q; t]; o_hdr := [] |}.
+Proof.
+  intros Hb Hne H1 H2. unfold internal_serve. rewrite Hb.
+  destruct t as [|c ts]; [congruence|].
+  cbn [accel_loop touch o_hdr o_status o_touched]. rewrite H1.
+  cbn [accel_loop touch o_hdr o_status o_touched app]. rewrite H2. reflexivity.
+Qed.
+
+(* the loop is bounded: at most 1 + 10 runs of the inner chain *)
+Lemma accel_loop_bound h : forall fuel q cur,
+  (length (o_touched (accel_loop fuel (touch h) q cur)) <= length (o_touched cur) + fuel)%nat.
+Proof.
+  induction fuel as [|k IH]; intros q cur; cbn [accel_loop].
+  - destruct (o_hdr cur); cbn [o_touched]; lia.
+  - destruct (o_hdr cur); [lia|].
+    eapply Nat.le_trans; [apply IH|]. cbn [o_touched touch]. rewrite app_length. cbn. lia.
+Qed.
+
+Theorem internal_bounded cs ps h q w :
+  (length (o_touched (internal_serve cs ps (touch h) q w)) <= 11)%nat.
+Proof.
+  unfold internal_serve. destruct (internal_blocks cs (q_path q) ps); [cbn; lia|].
+  eapply Nat.le_trans; [apply accel_loop_bound|]. cbn. lia.
+Qed.
+
+(* ====================================================================================
+   the chain in canonical order
+   ==================================================================================== *)
+Lemma sorted_from_mono : forall rs k k', (k <= k')%nat -> sorted_from k' rs = true -> sorted_from k rs = true.
+Proof.
+  induction rs as [|r rs IH]; intros k k' Hk H; [reflexivity|].
+  destruct r; cbn [sorted_from] in *;
+    try (apply andb_true_iff in H as [H1 H2]; apply Nat.leb_le in H1;
+         apply andb_true_iff; split; [apply Nat.leb_le; lia | exact H2]).
+  eapply IH; eauto.
+Qed.
+
+Lemma stack_sorted s : wf_site s -> forall dirs k,
+  sorted_from k (map role_of dirs) = true -> sorted_from k (map kind (stack s dirs)) = true.
+Proof.
+  intros Hwf. induction dirs as [|n dirs IH]; intros k H; [reflexivity|].
+  cbn [stack map] in *. destruct (s n) as [m|] eqn:E.
+  - cbn [map]. rewrite (Hwf n m E).
+    destruct (role_of n); cbn [sorted_from] in *;
+      try (apply andb_true_iff in H as [H1 H2]; rewrite H1; cbn [andb]; apply IH; exact H2).
+    apply IH. exact H.
+  - apply IH. destruct (role_of n); cbn [sorted_from] in H;
+      try (apply andb_true_iff in H as [H1 H2]; apply Nat.leb_le in H1;
+           eapply sorted_from_mono; [|exact H2]; lia).
+    exact H.
+Qed.
+
+(* phase 3: only content handlers (and neutral directives) remain: the path is not touched *)
+Lemma run_phase3 cs leaf : forall stk, sorted_from 3 (map kind stk) = true ->
+  forall q w, run cs stk leaf q w = touch (answer stk leaf) q w.
+Proof.
+  induction stk as [|m stk IH]; intros H q w; [reflexivity|].
+  destruct m; cbn [map kind sorted_from] in H; try discriminate.
+  - cbn [run answer]. apply IH. exact H.
+  - cbn [run answer]. destruct (takes (q_path q)) eqn:Et.
+    + unfold touch. rewrite Et. reflexivity.
+    + rewrite IH by exact H. unfold touch. rewrite Et. reflexivity.
+Qed.
+
+Lemma run_phase2 cs leaf : forall stk, sorted_from 2 (map kind stk) = true ->
+  forall q w, run cs stk leaf q w = serve_part cs stk leaf q w.
+Proof.
+  induction stk as [|m stk IH]; intros H q w; [reflexivity|].
+  destruct m; cbn [map kind sorted_from] in H; try discriminate.
+  - (* internal *) cbn [run]. unfold serve_part. cbn [internal_paths answer].
+    apply internal_serve_ext. intros q0 w0. apply run_phase3. exact H.
+  - (* neutral *) cbn [run]. rewrite IH by exact H. reflexivity.
+  - (* content *) rewrite run_phase3 by exact H. reflexivity.
+Qed.
+
+Lemma decide_nil cs opt p : basicauth_decide cs opt p [] = Pass.
+Proof. unfold basicauth_decide. destruct opt; reflexivity. Qed.
+
+Lemma set_path_id q : set_path q (q_path q) = q.
+Proof. destruct q; reflexivity. Qed.
+
+Lemma run_phase1 cs leaf : forall stk, sorted_from 1 (map kind stk) = true ->
+  forall q w, run cs stk leaf q w = chain_nf cs stk leaf q w.
+Proof.
+  induction stk as [|m stk IH]; intros H q w.
+  - unfold chain_nf. cbn [final_path auth_rules]. rewrite decide_nil, set_path_id. reflexivity.
+  - destruct m; cbn [map kind sorted_from] in H; try discriminate.
+    + (* auth *) unfold chain_nf. cbn [run final_path auth_rules]. rewrite set_path_id.
+      destruct (basicauth_decide cs (q_options q) (q_path q) rules); [|reflexivity].
+      rewrite run_phase2 by exact H. reflexivity.
+    + (* internal *) unfold chain_nf. cbn [final_path auth_rules]. rewrite decide_nil, set_path_id.
+      apply run_phase2. exact H.
+    + (* neutral *) cbn [run]. rewrite IH by exact H. reflexivity.
+    + (* content *) unfold chain_nf. cbn [final_path auth_rules]. rewrite decide_nil, set_path_id.
+      apply run_phase2. exact H.
+Qed.
+
+(* basicauth and internal test exactly the path the content handlers are first run with *)
+Theorem run_normal_form cs leaf : forall stk, sorted_from 0 (map kind stk) = true ->
+  forall q w, run cs stk leaf q w = chain_nf cs stk leaf q w.
+Proof.
+  induction stk as [|m stk IH]; intros H q w.
+  - apply run_phase1. reflexivity.
+  - destruct m; cbn [map kind sorted_from] in H.
+    + (* writer *) cbn [run]. rewrite IH by exact H. reflexivity.
+    + apply run_phase1. exact H.
+    + apply run_phase1. exact H.
+    + cbn [run]. rewrite IH by exact H. reflexivity.
+    + apply run_phase1. exact H.
+Qed.
+
+(* the order facts, computed by the kernel on the list regenerated from plugin.go *)
+Lemma gen_order_facts : sorted_from 0 (map role_of gen_directives) = true.
+Proof. vm_compute. reflexivity. Qed.
+
+Lemma gen_roles_present :
+  forallb (fun n => memb n gen_directives)
+          (writer_names ++ [bs "basicauth"%string; bs "internal"%string] ++ content_names) = true.
+Proof. vm_compute. reflexivity. Qed.
+
+Theorem auth_sees_final_path (s : site) cs leaf q w :
+  wf_site s ->
+  run cs (stack s gen_directives) leaf q w = chain_nf cs (stack s gen_directives) leaf q w.
+Proof.
+  intros Hwf. apply run_normal_form. apply stack_sorted; [exact Hwf|]. exact gen_order_facts.
+Qed.
+
+Lemma chain_sorted (s : site) : wf_site s -> sorted_from 0 (map kind (chain_of s)) = true.
+Proof. intros Hwf. unfold chain_of. apply stack_sorted; [exact Hwf|exact gen_order_facts]. Qed.
+
+(* the order hypothesis is what carries the theorem: basicauth placed outside a rewriter tests a
+   path nobody serves *)
+Theorem unordered_chain_refuted :
+  exists cs stk leaf q w, run cs stk leaf q w <> chain_nf cs stk leaf q w /\ o_status (run cs stk leaf q w) = 200.
+Proof.
+  exists false,
+    [MAuth [ {| r_resources := [bs "/secret"%string]; r_exclude := []; r_creds_ok := false |} ];
+     MWriter (fun _ => bs "/secret/f.txt"%string)],
+    (fun _ w => w), {| q_path := bs "/alias"%string; q_options := false; q_xaccel := [] |}, [].
+  split; [|vm_compute; reflexivity]. vm_compute. discriminate.
+Qed.
+
+(* ====================================================================================
+   what the content handlers read vs what the protection directives tested
+   ==================================================================================== *)
+Lemma path_matches_under cs p b : path_matches cs p b = under cs (matcher_form p) b.
+Proof.
+  unfold path_matches, under, trivial_scope, matcher_form, fold_case.
+  destruct (beq b [SLASH] || beq b []); [reflexivity|]. destruct cs; reflexivity.
+Qed.
+
+Lemma has_prefix_shorter : forall (b a s : bytes),
+  has_prefix (a ++ s) b = true -> (length b <= length a)%nat -> has_prefix a b = true.
+Proof.
+  induction b as [|y b IH]; intros a s H L; [apply has_prefix_nil|].
+  destruct a as [|x a]; [cbn in L; lia|]. cbn in H |- *.
+  apply andb_true_iff in H as [H1 H2]. rewrite H1. cbn. eapply IH; [exact H2|]. cbn in L. lia.
+Qed.
+
+Lemma has_prefix_length : forall (b a : bytes), has_prefix a b = true -> (length b <= length a)%nat.
+Proof.
+  induction b as [|y b IH]; intros a H; [cbn; lia|].
+  destruct a as [|x a]; [discriminate|]. cbn in H. apply andb_true_iff in H as [_ H].
+  apply IH in H. cbn. lia.
+Qed.
+
+Lemma fold_case_app cs a b : fold_case cs (a ++ b) = fold_case cs a ++ fold_case cs b.
+Proof. destruct cs; [reflexivity|apply to_lower_app]. Qed.
+Lemma fold_case_length cs a : length (fold_case cs a) = length a.
+Proof. destruct cs; [reflexivity|apply map_length]. Qed.
+
+Lemma has_prefix_fold cs : forall (b a : bytes),
+  has_prefix a b = true -> has_prefix (fold_case cs a) (fold_case cs b) = true.
+Proof.
+  destruct cs; [auto|]. induction b as [|y b IH]; intros a H; [apply has_prefix_nil|].
+  destruct a as [|x a]; [discriminate|]. cbn in H |- *.
+  apply andb_true_iff in H as [H1 H2]. apply N.eqb_eq in H1. subst y.
+  rewrite N.eqb_refl. cbn. apply IH. exact H2.
+Qed.
+
+Lemma resolved_clean p : rooted p -> resolved p = clean p.
+Proof. intros H. unfold resolved. apply clean_extra_slash. exact H. Qed.
+
+(* every read's name begins with its visible part, and the request as matched begins with it too *)
+Lemma reads_vis idx exts p k f : reads idx exts p k f -> exists s, f = vis p k ++ s.
+Proof.
+  intros H. destruct H; cbn [vis].
+  - exists []. rewrite app_nil_r. reflexivity.
+  - eexists. reflexivity.
+  - eexists. reflexivity.
+  - eexists. reflexivity.
+  - exists []. rewrite app_nil_r. reflexivity.
+  - eexists. reflexivity.
+  - exists []. rewrite app_nil_r. reflexivity.
+Qed.
+
+Lemma dir_slash_prefix c : has_prefix (c ++ [SLASH]) (dir_slash c) = true.
+Proof.
+  unfold dir_slash. destruct (beq c [SLASH]); [apply has_prefix_app|]; apply has_prefix_refl.
+Qed.
+
+Lemma vis_prefix idx exts p k f : rooted p -> reads idx exts p k f ->
+  has_prefix (matcher_form p) (vis p k) = true.
+Proof.
+  intros Hr H.
+  destruct H as [He|e He _|i He _|i e He _ _|He|d He _|]; cbn [vis];
+    try apply has_prefix_refl; unfold matcher_form;
+    rewrite (resolved_clean p Hr), He; try rewrite app_nil_r;
+    try apply has_prefix_refl; apply dir_slash_prefix.
+Qed.
+
+(* COVER: a scope that contains a read's name and does not reach below its visible part
+   matches the request path *)
+Theorem reads_covered cs idx exts p k f b :
+  rooted p -> reads idx exts p k f ->
+  under cs f b = true -> scope_within p k b = true -> path_matches cs p b = true.
+Proof.
+  intros Hr Hrd Hu Hw. rewrite path_matches_under. unfold under, scope_within in *.
+  destruct (trivial_scope b); [reflexivity|]. cbn [orb] in *.
+  destruct (reads_vis _ _ _ _ _ Hrd) as (s & ->).
+  apply Nat.leb_le in Hw. rewrite fold_case_app in Hu.
+  apply has_prefix_shorter in Hu; [|rewrite !fold_case_length; exact Hw].
+  eapply has_prefix_trans; [|exact Hu]. apply has_prefix_fold. eapply vis_prefix; eauto.
+Qed.
+
+(* for a file named by the request itself, a listing, a backend: no side condition at all *)
+Theorem reads_covered_direct cs idx exts p k f b :
+  rooted p -> reads idx exts p k f -> (k = KFile \/ k = KListing \/ k = KBackend) ->
+  under cs f b = true -> path_matches cs p b = true.
+Proof.
+  intros Hr Hrd Hk Hu. eapply reads_covered; eauto.
+  unfold scope_within. destruct (trivial_scope b) eqn:Et; [reflexivity|]. cbn [orb].
+  unfold under in Hu. rewrite Et in Hu. cbn [orb] in Hu.
+  apply has_prefix_length in Hu. rewrite !fold_case_length in Hu. apply Nat.leb_le.
+  assert (f = vis p k) as <-; [|exact Hu].
+  destruct Hrd; cbn [vis]; try reflexivity; destruct Hk as [Hk|[Hk|Hk]]; discriminate.
+Qed.
+
+(* EXCLUSIONS: an exclusion that matches the request path also contains everything read for it *)
+Lemma lower_byte_slash a : lower_byte a = SLASH -> a = SLASH.
+Proof.
+  unfold lower_byte, SLASH. destruct (65 <=? a) eqn:E1; destruct (a <=? 90) eqn:E2; cbn [andb]; intros H; try exact H.
+  apply N.leb_le in E1. lia.
+Qed.
+
+Lemma root_slash_case cs (E rest : bytes) :
+  has_prefix (fold_case cs [SLASH; SLASH]) (fold_case cs E) = true -> E <> [SLASH; SLASH] ->
+  has_prefix (fold_case cs (SLASH :: rest)) (fold_case cs E) = true.
+Proof.
+  intros H Hne.
+  assert (exists rest', fold_case cs (SLASH :: rest) = SLASH :: rest') as (rest' & ->)
+    by (destruct cs; eexists; reflexivity).
+  change (fold_case cs [SLASH; SLASH]) with (if cs then [SLASH; SLASH] else [lower_byte SLASH; lower_byte SLASH]) in H.
+  assert (Hs : (if cs then [SLASH; SLASH] else [lower_byte SLASH; lower_byte SLASH]) = [SLASH; SLASH])
+    by (destruct cs; reflexivity).
+  rewrite Hs in H. clear Hs.
+  destruct E as [|a [|b [|c E']]].
+  - destruct cs; reflexivity.
+  - assert (exists a', fold_case cs [a] = [a'] ) as (a' & Ea) by (destruct cs; eexists; reflexivity).
+    rewrite Ea in *. cbn [has_prefix] in H |- *. apply andb_true_iff in H as [H _]. rewrite H.
+    cbn [andb]. apply has_prefix_nil.
+  - exfalso. apply Hne.
+    assert (Ea : fold_case cs [a; b] = [if cs then a else lower_byte a; if cs then b else lower_byte b])
+      by (destruct cs; reflexivity).
+    rewrite Ea in H. cbn [has_prefix] in H.
+    apply andb_true_iff in H as [H1 H2]; apply andb_true_iff in H2 as [H2 _];
+      apply N.eqb_eq in H1, H2. symmetry in H1, H2.
+    destruct cs; [subst; reflexivity|]. apply lower_byte_slash in H1, H2. subst. reflexivity.
+  - exfalso. apply has_prefix_length in H. rewrite !fold_case_length in H. cbn in H. lia.
+Qed.
+
+Theorem exclusion_covers_reads cs idx exts p k f e :
+  rooted p -> reads idx exts p k f ->
+  path_matches cs p e = true -> matcher_form e <> [SLASH; SLASH] -> under cs f e = true.
+Proof.
+  intros Hr Hrd Hm Hne. rewrite path_matches_under in Hm. unfold under in *.
+  destruct (trivial_scope e); [reflexivity|]. cbn [orb] in *.
+  unfold matcher_form in Hm at 1.
+  assert (Hpre : forall s, has_prefix (fold_case cs (clean p ++ (if ends_with_slash p then [SLASH] else []) ++ s))
+                                      (fold_case cs (matcher_form e)) = true).
+  { intros s. rewrite app_assoc, fold_case_app. apply has_prefix_app. exact Hm. }
+  destruct Hrd as [He|x He _|i He _|i x He _ _|He|d He _|]; try rewrite (resolved_clean p Hr).
+  - specialize (Hpre []). rewrite He in Hpre. rewrite !app_nil_r in Hpre. exact Hpre.
+  - specialize (Hpre x). rewrite He in Hpre. exact Hpre.
+  - unfold dir_slash. destruct (beq (clean p) [SLASH]) eqn:Eb.
+    + apply beq_eq in Eb. rewrite Eb, He in Hm. rewrite Eb. apply root_slash_case; assumption.
+    + specialize (Hpre i). rewrite He in Hpre. rewrite <- app_assoc. exact Hpre.
+  - unfold dir_slash. destruct (beq (clean p) [SLASH]) eqn:Eb.
+    + apply beq_eq in Eb. rewrite Eb, He in Hm. rewrite Eb. apply root_slash_case; assumption.
+    + specialize (Hpre (i ++ x)). rewrite He in Hpre. rewrite <- app_assoc. exact Hpre.
+  - exact Hm.
+  - unfold dir_slash. destruct (beq (clean p) [SLASH]) eqn:Eb.
+    + apply beq_eq in Eb. rewrite Eb, He in Hm. rewrite Eb. apply root_slash_case; assumption.
+    + specialize (Hpre d). rewrite He in Hpre. rewrite <- app_assoc. exact Hpre.
+  - exact Hm.
+Qed.
+
+(* ====================================================================================
+   no disclosure through the chain
+   ==================================================================================== *)
+Lemma final_path_rooted : forall stk p, writers_rooted stk -> rooted p -> rooted (final_path stk p).
+Proof.
+  induction stk as [|m stk IH]; intros p Hw Hr; [exact Hr|].
+  destruct m; cbn [final_path]; try exact Hr.
+  - apply IH; [intros g Hg; apply Hw; right; exact Hg|]. apply (Hw f); [left; reflexivity|exact Hr].
+  - apply IH; [intros g Hg; apply Hw; right; exact Hg|exact Hr].
+Qed.
+
+(* basicauth denies the final path whenever a read for it is protected and the scope stays
+   within what the request path spells out *)
+Lemma protected_read_denied cs idx exts stk q k f ru res :
+  protected_read cs idx exts stk q k f ru res ->
+  scope_within (final_path stk (q_path q)) k res = true ->
+  basicauth_decide cs (q_options q) (final_path stk (q_path q)) (auth_rules stk) = Deny401.
+Proof.
+  intros [Hr Hw Ho Hnc Hrd Hru Hres Hu Hex] Hsw. rewrite Ho.
+  assert (Hr' : rooted (final_path stk (q_path q))) by (apply final_path_rooted; assumption).
+  apply basicauth_no_pass_without_credentials; [exact Hnc|].
+  apply existsb_exists. exists ru. split; [exact Hru|]. unfold protects. apply andb_true_iff. split.
+  - apply existsb_exists. exists res. split; [exact Hres|]. eapply reads_covered; eauto.
+  - apply negb_true_iff. apply existsb_false_forall. intros e He.
+    destruct (path_matches cs (final_path stk (q_path q)) e) eqn:Em; [|reflexivity].
+    destruct (Hex e He) as [Hue Hne].
+    rewrite (exclusion_covers_reads cs idx exts _ k f e Hr' Hrd Em Hne) in Hue. discriminate.
+Qed.
+
+Lemma no_disclosure_sorted cs idx exts stk leaf q w k f ru res :
+  sorted_from 0 (map kind stk) = true ->
+  protected_read cs idx exts stk q k f ru res ->
+  scope_within (final_path stk (q_path q)) k res = true ->
+  run cs stk leaf q w = deny 401 w.
+Proof.
+  intros Hs Hp Hsw. rewrite run_normal_form by exact Hs.
+  unfold chain_nf. cbn [set_path q_path].
+  rewrite (protected_read_denied _ _ _ _ _ _ _ _ _ Hp Hsw). reflexivity.
+Qed.
+
+Theorem no_disclosure_chain_partial cs idx exts (s : site) leaf q w k f ru res :
+  wf_site s ->
+  protected_read cs idx exts (chain_of s) q k f ru res ->
+  scope_within (final_path (chain_of s) (q_path q)) k res = true ->
+  run cs (chain_of s) leaf q w = deny 401 w.
+Proof.
+  intros Hwf Hp Hsw. eapply no_disclosure_sorted; eauto. apply chain_sorted. exact Hwf.
+Qed.
+
+Lemma scope_within_direct cs idx exts p k f b :
+  reads idx exts p k f -> (k = KFile \/ k = KListing \/ k = KBackend) ->
+  under cs f b = true -> scope_within p k b = true.
+Proof.
+  intros Hrd Hk Hu. unfold scope_within. destruct (trivial_scope b) eqn:Et; [reflexivity|]. cbn [orb].
+  unfold under in Hu. rewrite Et in Hu. cbn [orb] in Hu.
+  apply has_prefix_length in Hu. rewrite !fold_case_length in Hu. apply Nat.leb_le.
+  assert (f = vis p k) as <-; [|exact Hu].
+  destruct Hrd; cbn [vis]; try reflexivity; destruct Hk as [Hk|[Hk|Hk]]; discriminate.
+Qed.
+
+(* files named by the request, listings, backends: the full statement *)
+Theorem no_disclosure_chain_direct cs idx exts (s : site) leaf q w k f ru res :
+  wf_site s -> (k = KFile \/ k = KListing \/ k = KBackend) ->
+  protected_read cs idx exts (chain_of s) q k f ru res ->
+  run cs (chain_of s) leaf q w = deny 401 w.
+Proof.
+  intros Hwf Hk Hp. eapply no_disclosure_chain_partial; eauto.
+  eapply scope_within_direct; [exact (pr_reads _ _ _ _ _ _ _ _ _ Hp)|exact Hk|exact (pr_under _ _ _ _ _ _ _ _ _ Hp)].
+Qed.
+
+(* internal locations *)
+Lemma no_disclosure_internal_sorted cs idx exts stk leaf q w k f pre :
+  sorted_from 0 (map kind stk) = true ->
+  internal_read cs idx exts stk q k f pre ->
+  scope_within (final_path stk (q_path q)) k pre = true ->
+  o_touched (run cs stk leaf q w) = [] /\
+  (o_status (run cs stk leaf q w) = 401 \/ o_status (run cs stk leaf q w) = 404).
+Proof.
+  intros Hs [Hr Hw Hrd (ps & Hps & Hin) Hu] Hsw.
+  rewrite run_normal_form by exact Hs. unfold chain_nf. cbn [set_path q_path].
+  destruct (basicauth_decide cs (q_options q) _ _); [|cbn; auto].
+  unfold serve_part. rewrite Hps. rewrite internal_blocked_404; [cbn; auto|].
+  cbn [q_path set_path]. apply existsb_exists. exists pre. split; [exact Hin|].
+  eapply reads_covered; eauto. apply final_path_rooted; assumption.
+Qed.
+
+Theorem no_disclosure_chain_internal_partial cs idx exts (s : site) leaf q w k f pre :
+  wf_site s ->
+  internal_read cs idx exts (chain_of s) q k f pre ->
+  scope_within (final_path (chain_of s) (q_path q)) k pre = true ->
+  o_touched (run cs (chain_of s) leaf q w) = [] /\
+  (o_status (run cs (chain_of s) leaf q w) = 401 \/ o_status (run cs (chain_of s) leaf q w) = 404).
+Proof.
+  intros Hwf Hp Hsw. apply (no_disclosure_internal_sorted cs idx exts _ leaf q w k f pre); auto.
+  apply chain_sorted. exact Hwf.
+Qed.
+
+(* with valid credentials for a rule protecting the final path, basicauth is transparent *)
+Theorem chain_with_credentials cs (s : site) leaf q w ru :
+  wf_site s -> In ru (auth_rules (chain_of s)) ->
+  protects cs (final_path (chain_of s) (q_path q)) ru = true -> r_creds_ok ru = true ->
+  run cs (chain_of s) leaf q w =
+  serve_part cs (chain_of s) leaf (set_path q (final_path (chain_of s) (q_path q))) w.
+Proof.
+  intros Hwf Hin Hp Hok. rewrite run_normal_form by (apply chain_sorted; exact Hwf).
+  unfold chain_nf. cbn [set_path q_path].
+  rewrite (basicauth_pass_with_credentials _ _ _ _ ru Hin Hp Hok). reflexivity.
+Qed.
+
+(* ---- the two recorded findings are exactly where the full statement fails ---- *)
+Definition site_auth (rules : list rule) : site :=
+  fun n => if beq n (bs "basicauth"%string) then Some (MAuth rules) else None.
+
+Lemma site_auth_wf rules : wf_site (site_auth rules).
+Proof.
+  intros n m. unfold site_auth. destruct (beq n (bs "basicauth"%string)) eqn:E; [|discriminate].
+  intros H. injection H as <-. apply beq_eq in E. subst n. reflexivity.
+Qed.
+
+Lemma chain_site_auth rules : chain_of (site_auth rules) = [MAuth rules].
+Proof. vm_compute. reflexivity. Qed.
+
+Definition noauth_q (p : bytes) : request := {| q_path := p; q_options := false; q_xaccel := [] |}.
+Definition plain_rule (res : bytes) : rule := {| r_resources := [res]; r_exclude := []; r_creds_ok := false |}.
+
+Lemma protected_read_site_auth cs idx exts p k f res :
+  rooted p -> reads idx exts p k f -> under cs f res = true ->
+  protected_read cs idx exts (chain_of (site_auth [plain_rule res])) (noauth_q p) k f (plain_rule res) res.
+Proof.
+  intros Hr Hrd Hu. rewrite chain_site_auth. constructor; cbn; auto.
+  - intros g [Hg|[]]. discriminate.
+  - intros r0 [<-|[]]. reflexivity.
+  - intros e [].
+Qed.
+
+(* F-C03-1: the archive of an unprotected directory contains a protected sub-directory *)
+Theorem no_disclosure_chain_archive_refuted :
+  exists cs idx exts s leaf q w f ru res,
+    wf_site s /\ protected_read cs idx exts (chain_of s) q KArchive f ru res /\
+    run cs (chain_of s) leaf q w = touch leaf q w.
+Proof.
+  exists false, [], [], (site_auth [plain_rule (bs "/arc/priv"%string)]), (fun _ w => w),
+    (noauth_q (bs "/arc/"%string)), [], (bs "/arc/priv/p.txt"%string),
+    (plain_rule (bs "/arc/priv"%string)), (bs "/arc/priv"%string).
+  split; [apply site_auth_wf|]. split.
+  - apply protected_read_site_auth; [eexists; reflexivity| |vm_compute; reflexivity].
+    apply (RdArchive [] [] (bs "/arc/"%string) (bs "priv/p.txt"%string)); [vm_compute; reflexivity|discriminate].
+  - vm_compute. reflexivity.
+Qed.
+
+(* F-C03-2: the scope names an index file; the directory request is matched, the index page is read *)
+Theorem no_disclosure_chain_index_refuted :
+  exists cs idx exts s leaf q w f ru res,
+    wf_site s /\ protected_read cs idx exts (chain_of s) q KIndex f ru res /\
+    run cs (chain_of s) leaf q w = touch leaf q w.
+Proof.
+  exists false, [bs "index.html"%string], [], (site_auth [plain_rule (bs "/secret/index.html"%string)]),
+    (fun _ w => w), (noauth_q (bs "/secret/"%string)), [], (bs "/secret/index.html"%string),
+    (plain_rule (bs "/secret/index.html"%string)), (bs "/secret/index.html"%string).
+  split; [apply site_auth_wf|]. split.
+  - apply protected_read_site_auth; [eexists; reflexivity| |vm_compute; reflexivity].
+    apply (RdIndex [bs "index.html"%string] [] (bs "/secret/"%string) (bs "index.html"%string));
+      [vm_compute; reflexivity|left; reflexivity].
+  - vm_compute. reflexivity.
+Qed.
+
+(* the same mechanism with a precompressed sibling: the scope names f.txt.gz, the request f.txt *)
+Theorem no_disclosure_chain_sibling_refuted :
+  exists cs idx exts s leaf q w f ru res,
+    wf_site s /\ protected_read cs idx exts (chain_of s) q KSibling f ru res /\
+    run cs (chain_of s) leaf q w = touch leaf q w.
+Proof.
+  exists false, [], [bs ".gz"%string], (site_auth [plain_rule (bs "/secret/f.txt.gz"%string)]),
+    (fun _ w => w), (noauth_q (bs "/secret/f.txt"%string)), [], (bs "/secret/f.txt.gz"%string),
+    (plain_rule (bs "/secret/f.txt.gz"%string)), (bs "/secret/f.txt.gz"%string).
+  split; [apply site_auth_wf|]. split.
+  - apply protected_read_site_auth; [eexists; reflexivity| |vm_compute; reflexivity].
+    apply (RdSibling [] [bs ".gz"%string] (bs "/secret/f.txt"%string) (bs ".gz"%string));
+      [vm_compute; reflexivity|left; reflexivity].
+  - vm_compute. reflexivity.
+Qed.
+
+(* nothing else is excused: when the side condition of the partial theorem fails, the scope
+   reaches strictly below the visible part of an index / sibling / archive read *)
+Theorem scope_within_fails_only_below cs idx exts p k f b :
+  reads idx exts p k f -> under cs f b = true -> scope_within p k b = false ->
+  (k = KSibling \/ k = KIndex \/ k = KIndexSibling \/ k = KArchive) /\
+  (length (vis p k) < length (matcher_form b) <= length f)%nat.
+Proof.
+  intros Hrd Hu Hsw. split.
+  - destruct k; auto;
+      rewrite (scope_within_direct cs idx exts p _ f b Hrd) in Hsw; auto; discriminate.
+  - unfold scope_within in Hsw. apply orb_false_iff in Hsw as [Ht Hl].
+    unfold under in Hu. rewrite Ht in Hu. cbn [orb] in Hu.
+    apply has_prefix_length in Hu. rewrite !fold_case_length in Hu.
+    apply Nat.leb_gt in Hl. lia.
+Qed.
+
+Lemma site_of_wf l : wf_list l = true -> wf_site (site_of l).
+Proof.
+  induction l as [|[a m0] l IH]; intros H n m; cbn [site_of]; [discriminate|].
+  cbn [wf_list forallb fst snd] in H. apply andb_true_iff in H as [H1 H2].
+  destruct (beq a n) eqn:E.
+  - intros Hm. injection Hm as <-. apply beq_eq in E. subst n.
+    destruct (kind m0), (role_of a); try discriminate; reflexivity.
+  - apply IH. exact H2.
+Qed.
+
+Lemma example_site_writers_rooted : writers_rooted (map snd example_site).
+Proof.
+  intros f [Hf|[Hf|[Hf|[Hf|[Hf|[Hf|[]]]]]]]; try discriminate; injection Hf as <-; intros x Hx; cbv beta.
+  - destruct (beq x _); [eexists; reflexivity|exact Hx].
+  - exact Hx.
+Qed.
+
+(* `under` is Path.Matches for a canonical name: nothing is lost by not re-normalising it *)
+Theorem under_is_path_matches cs f b :
+  clean f = f -> ends_with_slash f = false -> path_matches cs f b = under cs f b.
+Proof.
+  intros Hc He. rewrite path_matches_under. unfold matcher_form. rewrite Hc, He, app_nil_r. reflexivity.
+Qed.
+
+Theorem resolved_canonical p : rooted p -> resolved p <> [SLASH] ->
+  clean (resolved p) = resolved p /\ ends_with_slash (resolved p) = false.
+Proof.
+  intros Hr Hne. rewrite (resolved_clean p Hr) in *. split; [apply clean_idempotent_rooted; exact Hr|].
+  destruct (clean_not_root_shape p Hr Hne) as (segs & Hs & E & Hg). rewrite E.
+  apply ends_with_slash_shape; assumption.
 Qed.
